@@ -1,4 +1,5 @@
 From RV Require Import Lib.Res Backend.Framing.
+From RV Require Generated.Params.
 From Coq Require Import ZifyBool ZifyN.
 Open Scope N_scope.
 Ltac Zify.zify_post_hook ::= Z.div_mod_to_equations.
@@ -221,3 +222,7 @@ Proof.
   destruct tail as [|a [|b [|c t]]]; cbn [length] in Ht; try lia;
     cbn; now rewrite app_nil_r.
 Qed.
+
+(* width of the length prefix: re-read from the source on every run *)
+Lemma tcp_size_width_pinned : RV.Generated.Params.tcp_size_width = 16.
+Proof. reflexivity. Qed.
